@@ -52,7 +52,7 @@ def sentResps (m : Member S P) : Option (List (DkgResp S P)) :=
 def doStart (ms : List (Member S P)) (i : Nat) : List (Member S P) := updM ms i (Member.start g)
 def doPk (ms : List (Member S P)) (j i : Nat) : List (Member S P) :=
   match (getM ms j).bind sentPk with
-  | some x => updM ms i (fun m => m.recvPk g { x with sender := j })     -- `Loop` stamps the transport sender
+  | some x => updM ms i (fun m => m.loopPk g j x)     -- `Loop` stamps the transport sender
   | none => ms
 def doDeal (ms : List (Member S P)) (j i : Nat) : List (Member S P) :=
   match (getM ms j).bind (fun m => sentDeal m i) with
@@ -166,7 +166,10 @@ def injectSpec (w : World) (spec : String) (to : Nat) : World :=
   | some "K" =>
     let ko := f.getD 3 ""
     let key : P := if ko.startsWith "x" then advKey (parseNat (ko.drop 1).toString) • g else longOf w.dup (parseNat ko) • g
-    { w with ms := updM w.ms to (fun m => m.recvPk g ⟨a 1, some key, a 2⟩) }
+    -- SenderId as the forger filled it in ("-"/absent empty, "g" garbage, <k> the id of member k)
+    let pre := f.getD 4 "-"
+    let claimed : Nat := if pre = "-" then w.n + 1000 else if pre = "g" then w.n + 1001 else parseNat pre
+    { w with ms := updM w.ms to (fun m => m.loopPk g (a 2) ⟨a 1, some key, claimed⟩) }
   | some "D" => deliverDeal (advDeal w.dup w.n (a 1) (a 2) (a 3) (String.intercalate "." (f.drop 4)))
   | some "GD" =>
     match (getM w.ms (a 1)).bind (fun m => sentDeal m (a 2)) with
